@@ -83,7 +83,7 @@ func verifC14Run(op int) {
 
 	verifC14.on = false
 	guardOff()
-	assert("lock-released", !held(&d.mu))
+	assert("lock-released", notHeld(&d.mu))
 	assert("single-critical-section", ghostCount("db.lock") <= 1)
 	reach("end")
 }
